@@ -479,6 +479,61 @@ var rulePools = &core.Rule{ID: "R04.3", Min: 6,
 				}
 			}
 		}
+		// wherever the pooled value came from (a getter helper, a parameter): handing a value back, directly or through
+		// a helper, is the last thing the function does with it
+		for _, f := range c.SrcFuncs() {
+			for _, ci := range core.Calls(f) {
+				put, isCall := ci.(*ssa.Call)
+				if !isCall {
+					continue
+				}
+				var x ssa.Value
+				how := ""
+				if core.MethodCalleeIs(&put.Call, "sync", "Pool", "Put") {
+					if mi, ok := put.Call.Args[1].(*ssa.MakeInterface); ok {
+						x, how = mi.X, "Put"
+					}
+				} else if g := put.Call.StaticCallee(); g != nil && core.InMod(g) && g.Blocks != nil {
+					for ai, a := range put.Call.Args {
+						if putsParam(g, ai) {
+							x, how = a, g.Name()
+						}
+					}
+				}
+				if x == nil {
+					continue
+				}
+				if _, isConst := x.(*ssa.Const); isConst {
+					continue
+				}
+				refs := x.Referrers()
+				if refs == nil {
+					continue
+				}
+				after := ""
+				reach := core.Reach(put.Block())
+				for _, u := range *refs {
+					if u == ssa.Instruction(put) || u.Parent() != f {
+						continue
+					}
+					switch u.(type) {
+					case *ssa.DebugRef, *ssa.MakeInterface:
+						continue
+					}
+					later := false
+					if u.Block() == put.Block() {
+						later = core.InstrIndex(u) > core.InstrIndex(put)
+					} else if reach[u.Block()] {
+						later = true
+					}
+					if later {
+						after = c.Pos(u.Pos())
+					}
+				}
+				key := fmt.Sprintf("%s: %s is the last use of the value handed back", core.FName(f), callOrdinal(put))
+				s.Check(after == "", key, c.Pos(put.Pos()), "no later use ("+how+")", "the value is still used (at "+after+") after it was put back into the pool: another goroutine can take and reset it in between (data race, results of another detection)")
+			}
+		}
 		s.Check(nGet >= 2, "pool Get sites", "-", fmt.Sprint(nGet), "fewer than two pooled objects found")
 		// Put arguments
 		for _, f := range c.AllModFuncs() {
